@@ -92,3 +92,22 @@ Theorem C15_boundary_mnn_fallback :
       (forall x, nth_error front a = Some x -> In x sel) /\ (forall x, nth_error front b = Some x -> In x sel).
 Proof. exact mnn_boundary_kept. Qed.
 Print Assumptions C15_boundary_mnn_fallback.
+
+(* ---- the same for the crowding distance (the default metric): calc_crowding_distance is finite outside the first and the
+   last row of each objective's stable sorted order (at most 2 x n_obj rows); hence, for every tie-break, keeping at least
+   2 x n_obj members keeps a holder i0 of the minimum and a holder i1 of the maximum of every non-constant objective. ---- *)
+From PV Require Import Proofs.CdBoundaryP.
+Theorem C15_boundary_cd :
+  forall (F : list (list eq)) m (front : list nat) quota sel perm sv,
+    fin_matrix F m -> 0 < m -> length (hd [] F) = m ->
+    let crowd := calc_crowding_distance (X := EQx) F in
+    length front = length F -> length perm = length crowd -> NoDup perm -> Forall (fun i => i < length crowd) perm ->
+    pick crowd perm = Some sv -> sorted_by (N := EQn) true sv = true -> pick front (firstn quota perm) = Some sel ->
+    2 * m <= quota ->
+    forall j, j < m -> (exists a b, In a (col (X := EQx) F j) /\ In b (col (X := EQx) F j) /\ eltb a b = true) ->
+    exists i0 i1, i0 < length F /\ i1 < length F /\
+      (forall i, i < length F -> fle (nth i0 (col (X := EQx) F j) ENaN) (nth i (col (X := EQx) F j) ENaN) /\
+                                 fle (nth i (col (X := EQx) F j) ENaN) (nth i1 (col (X := EQx) F j) ENaN)) /\
+      (forall x, nth_error front i0 = Some x -> In x sel) /\ (forall x, nth_error front i1 = Some x -> In x sel).
+Proof. exact cd_boundary_kept. Qed.
+Print Assumptions C15_boundary_cd.
